@@ -214,11 +214,13 @@ def _algebra(ctx, desc):
     def rnd(shp):
         return torch.rand(shp, generator=g, dtype=torch.float64).to(tdt) * 0.9
 
-    def check_params(expected, touched, rdesc, what):
+    def check_params(expected, touched, rdesc, what, scale=None):
         for nm in pshape:
             got = _np(getattr(conn, nm))
             if nm in touched:
-                if not np.allclose(got, expected[nm], rtol=rtol, atol=atol, equal_nan=True):
+                # float32: rounding is relative to the largest term of old + U(pos) - L(neg), not to the (possibly cancelled) result
+                extra = 0.0 if (tdt == torch.float64 or scale is None) else 1e-5 * scale.get(nm, 0.0)
+                if not np.allclose(got, expected[nm], rtol=rtol, atol=atol + extra, equal_nan=True):
                     ctx.violation(f"algebra.{what}.{tag}.value", f"{nm} after {what}: max err {np.abs(got - expected[nm]).max():.3g}",
                                   rdesc, {"param": nm, "got": got.tolist(), "expected": expected[nm].tolist()})
                     return False
@@ -254,8 +256,13 @@ def _algebra(ctx, desc):
             elif k in ("update", "updatesome", "update_twice"):
                 names = list(pshape) if k != "updatesome" else op["params"]
                 exp = dict(cur)
+                scale = {}
                 for nm in names:
                     exp[nm] = _expected(desc, cur[nm], model[nm]["pos"], model[nm]["neg"], mx, mn)
+                    up = _expected(desc, cur[nm], model[nm]["pos"], [], mx, mn) - cur[nm]
+                    lo = cur[nm] - _expected(desc, cur[nm], [], model[nm]["neg"], mx, mn)
+                    with np.errstate(all="ignore"):
+                        scale[nm] = float(np.nanmax(np.abs(cur[nm]) + np.abs(up) + np.abs(lo)))
                 # outside the kernels' domain (fractional power of a negative distance, overflow): no oracle
                 frac = "power" in desc["bound"] and float(desc["power"]) != int(desc["power"])
                 undefined = any((frac and ((cur[nm] > mx).any() or (cur[nm] < mn).any()))
@@ -271,7 +278,7 @@ def _algebra(ctx, desc):
                 else:
                     conn.update()
                 ctx.count("applications")
-                if not check_params(exp, set(names), rdesc, k):
+                if not check_params(exp, set(names), rdesc, k, scale):
                     return
                 nonempty = [nm for nm in names if model[nm]["pos"] or model[nm]["neg"]]
                 if desc["reduction"] != "default" and nonempty:
